@@ -173,6 +173,10 @@ func (w *World) exec(m *myconn, q string) *result {
 		fa.Before(w)
 		if !s.Up || w.deadCaller[m.caller] {
 			w.LogLocked(Event{Kind: "sql", Phase: "ret", Who: m.caller, Host: m.host, Class: class, Res: "lost", Err: -1, Mut: mut, Occ: ctx.Occ, ID: id})
+			ctx.Errno, ctx.Note = -1, "lost: the server died before executing the statement"
+			for _, f := range w.AfterStmt {
+				f(w, ctx)
+			}
 			return &result{drop: true}
 		}
 	}
